@@ -311,7 +311,7 @@ func checkC03(w *World, r *Report) {
 	r.Rule("C03.conserve", "P5,P6", "in StartDistributionProcess every value credited to a state other than the final remainder was subtracted from the remainder on the same path; the final remainder is credited exactly once, unless the primary destination is Main; shares are computed with MulDecTruncate only", 4)
 	r.Rule("C03.writers", "P4", "closed world: every store to State.Remains on the distributor's block tree is the initial empty value of a new state, a credit Remains.Add(share passed in), the change of the TruncateDecimal whose integer part was paid out, or a clearing whose old value is returned as inflow", 6)
 	r.Rule("C03.burnkey", "P5,P8", "the burn state's lookup agrees with its store key: it selects by the Burn flag alone, for every element, whatever the shape of the Account field", 1)
-	r.Rule("C03.sweep", "P5", "= C14.sweep: a source sweep reports as inflow exactly the coins it moved into the main account, and nothing when the transfer failed (otherwise states are credited with coins the main account does not hold)", 4)
+	r.Rule("C03.sweep", "P5", "= C14.sweep", 7)
 	r.Rule("C03.wrapper", "P4,P6", "= C14.wrapper: bank wrappers of the distributor pass amount, accounts and result through unchanged", 4)
 	r.Rule("C03.persist", "P5", "in the end-of-block loop every element of the state list reaches SetState on every path", 3)
 	r.Rule("C03.order", "P4,P6", "source-order independence: the Main source must see what earlier sources of the same sub-distributor swept into the main account", 1)
@@ -765,7 +765,7 @@ func checkC14(w *World, r *Report) {
 	cg := w.CG()
 	r.Undecided = []string{"'every destination ends up with what it would have received, up to one base unit' is numeric; only the structural conditions without which it cannot hold are decided"}
 	r.Rule("C14.success", "P5", "in each pay-out function state.Remains is stored only on the success edge of the bank call, with result #1 of the TruncateDecimal whose result #0 was sent; on the failure edge no field of the state is stored", 9)
-	r.Rule("C14.sweep", "P5", "in each source sweep the failure edge of the transfer returns an empty inflow, and the success path returns exactly the coins that were transferred", 4)
+	r.Rule("C14.sweep", "P5,P6,P7", "in each source sweep, evaluated under 'transfer failed' / 'transfer succeeded' (origins restricted to live edges): nothing returned after a failed transfer depends on the coins that were to be moved, everything returned after a successful one contains them; the sweep goes to the main account; leftovers that were cleared from the source's own state reach the returned inflow on every path", 7)
 	r.Rule("C14.wrapper", "P4,P6", "every bank transfer or burn in the distributor's block tree sits in a keeper wrapper that passes its amount and account parameters to the bank unchanged and returns the bank's result: callers reason about the amount they passed", 4)
 	r.Rule("C14.persist", "P5", "= C03.persist", 3)
 	r.Rule("C14.noerrorexit", "P5", "= C10.swallow: bank errors in the distributor's block tree are logged and never escalate to a panic or an error return", 5)
@@ -948,44 +948,57 @@ func sweepRule(w *World, r *Report, rule string) {
 			continue
 		}
 		ev := errValues(fn, siteValue(xfer))
-		fail := NilEdges(fn, ev, false)
-		okFail := len(fail) > 0
-		for _, e := range fail {
-			// every return reachable from the failure edge yields nil / empty
-			seen := map[*ssa.BasicBlock]bool{}
-			var walk func(b *ssa.BasicBlock)
-			walk = func(b *ssa.BasicBlock) {
-				if seen[b] {
+		sent := coinsArg(xfer)
+		dependsOnSent := func(o *Origin) bool {
+			if c, ok := sent.(*ssa.Call); ok && o.Calls[c] {
+				return true
+			}
+			return o.Visited(sent)
+		}
+		for _, failed := range []bool{true, false} {
+			failed := failed
+			live := ReachUnder(fn, OrderEval(func(v ssa.Value) string {
+				if ev[v] {
+					return "err"
+				}
+				return ""
+			}, func(a, b string) (int, bool) { return 0, false }, func(t string) (bool, bool) { return !failed, t == "err" }))
+			lt := w.Tracer()
+			lt.Live, lt.LiveFn = live, fn
+			nret, ok := 0, true
+			// returns reachable after the transfer along live edges
+			after := map[*ssa.BasicBlock]bool{}
+			var fwd func(b *ssa.BasicBlock)
+			fwd = func(b *ssa.BasicBlock) {
+				if after[b] {
 					return
 				}
-				seen[b] = true
-				if ret, ok := b.Instrs[len(b.Instrs)-1].(*ssa.Return); ok {
-					v := retVals(ret)[0]
-					if !isNilConst(v) {
-						if c, ok := v.(*ssa.Call); !ok || !strings.HasSuffix(callName(c.Common()), "types.NewDecCoins") || len(c.Common().Args) > 0 && !isNilConst(c.Common().Args[0]) {
-							okFail = false
-						}
+				after[b] = true
+				for i, sc := range b.Succs {
+					if live.Edges[Edge{b, i}] {
+						fwd(sc)
 					}
 				}
-				for _, s := range b.Succs {
-					walk(s)
+			}
+			if live.Blocks[xfer.Instr.Block()] {
+				fwd(xfer.Instr.Block())
+			}
+			for _, ret := range Returns(fn) {
+				if !after[ret.Block()] {
+					continue
+				}
+				nret++
+				dep := dependsOnSent(lt.Origins(retVals(ret)[0]))
+				if failed && dep || !failed && !dep {
+					ok = false
 				}
 			}
-			walk(e.To())
-		}
-		r.Check(okFail, rule, funcName(fn)+": failed sweep contributes nothing", w.Pos(xfer.Instr.Pos()), "the failure edge returns nil / empty coins", "a failed sweep still reports the coins as inflow: they would be distributed without having arrived")
-		// success path returns NewDecCoinsFromCoins(coins transferred)
-		okRet := false
-		sent := coinsArg(xfer)
-		for _, ret := range Returns(fn) {
-			v := retVals(ret)[0]
-			if c, ok := v.(*ssa.Call); ok && strings.HasSuffix(callName(c.Common()), "types.NewDecCoinsFromCoins") {
-				if c.Common().Args[0] == sent || DerivesVia(c.Common().Args[0], sent) {
-					okRet = true
-				}
+			if failed {
+				r.Check(ok && nret > 0, rule, funcName(fn)+": failed sweep contributes nothing", w.Pos(xfer.Instr.Pos()), "no value returned on the failure edge depends on the coins that were to be moved", "a failed sweep still reports the coins as inflow: they would be distributed without having arrived")
+			} else {
+				r.Check(ok && nret > 0, rule, funcName(fn)+": inflow reported = coins transferred", w.Pos(fn.Pos()), "every value returned on the success edge contains the very coins sent", "the inflow reported after a successful sweep does not contain the coins that were moved into the main account")
 			}
 		}
-		r.Check(okRet, rule, funcName(fn)+": inflow reported = coins transferred", w.Pos(fn.Pos()), "NewDecCoinsFromCoins of the very coins sent", "the inflow reported differs from the coins that were moved into the main account")
 		// the coins sent are the balance of the source, moved into the main account
 		names := w.bankStringArgs(xfer)
 		toMain := false
@@ -1003,6 +1016,80 @@ func sweepRule(w *World, r *Report, rule string) {
 		}
 		r.Check(toMain, rule, funcName(fn)+": swept into the distributor main account", w.Pos(xfer.Instr.Pos()), "destination constant", fmt.Sprintf("sweep destination %v", names))
 	}
+	// leftovers taken over from a source's own state reach the inflow on every path (they were cleared in the state)
+	if nm := w.Func("x/cfedistributor/keeper.Keeper.prepareCoinToDistributeForNotMainAccount"); nm != nil {
+		for _, s := range cg.Sites[nm] {
+			if !calleeIs(s, "x/cfedistributor/keeper.prepareLeftCoinToDistribute") {
+				continue
+			}
+			l := siteValue(s)
+			ok := true
+			for _, ret := range Returns(nm) {
+				if !mustDerive(w, retVals(ret)[0], l, 0) {
+					ok = false
+				}
+			}
+			r.Check(ok && l != nil, rule, funcName(nm)+": leftovers cleared from the source's state reach the inflow on every path", w.Pos(s.Instr.Pos()), "every return carries the result of prepareLeftCoinToDistribute", "on some path the leftovers that were cleared from the state are dropped (for example when the sweep fails): the coins stay in the main account with no state recording them")
+		}
+	} else {
+		r.Unk("infra.anchor", "x/cfedistributor/keeper.Keeper.prepareCoinToDistributeForNotMainAccount", "", "anchor not found")
+	}
+}
+
+// mustDerive: on every path the value v contains target: v is target, an Add/append-like call with a must-derived
+// argument, a phi all of whose edges must-derive, or a module call whose every return must-derives from a parameter
+// bound to a must-derived argument.
+func mustDerive(w *World, v, target ssa.Value, depth int) bool {
+	if v == target {
+		return true
+	}
+	if depth > 3 {
+		return false
+	}
+	switch x := v.(type) {
+	case *ssa.Phi:
+		for _, e := range x.Edges {
+			if !mustDerive(w, e, target, depth+1) {
+				return false
+			}
+		}
+		return len(x.Edges) > 0
+	case *ssa.Extract:
+		return mustDerive(w, x.Tuple, target, depth)
+	case *ssa.ChangeType:
+		return mustDerive(w, x.X, target, depth)
+	case *ssa.Slice:
+		return mustDerive(w, x.X, target, depth)
+	case *ssa.Call:
+		n := callName(x.Common())
+		if hasSuffixAny(n, "types.DecCoins.Add", "types.Coins.Add") {
+			for _, a := range x.Common().Args {
+				if mustDerive(w, a, target, depth+1) {
+					return true
+				}
+			}
+			return false
+		}
+		callee := x.Common().StaticCallee()
+		if callee == nil || callee.Blocks == nil || !w.isProdFunc(callee) {
+			return false
+		}
+		for i, a := range x.Common().Args {
+			if i >= len(callee.Params) || !mustDerive(w, a, target, depth+1) {
+				continue
+			}
+			all := true
+			for _, ret := range Returns(callee) {
+				if !mustDerive(w, retVals(ret)[0], callee.Params[i], depth+1) {
+					all = false
+				}
+			}
+			if all {
+				return true
+			}
+		}
+	}
+	return false
 }
 
 // burnLookupRule: the burn state is stored under a key of its own, chosen by nothing but the Burn flag
